@@ -98,6 +98,20 @@ def run(ctx):
     for g in groups[::3]:
         inter += [g[0], 'cbor.enc 1 u5', g[-1], g[0]]
     ctx.both(inter)
+    # memory purity, deterministic: kept results are not clobbered by later calls, scribbling over a result does not change later
+    # outputs, spare capacity behind an input slice is not written (pooled buffers, package-level slices, append on the input)
+    rops = []
+    for a in range(len(subs)):
+        for b_ in range(len(subs)):
+            if a != b_:
+                rops.append(f'c18.retain subset {hexs(b"https://example.com/v")}|{"bb" * 32}|5|10|{subs[a]} {hexs(b"https://other.example/w")}|{"cc" * 32}|7|12|{",".join(subs[b_:] + subs[:b_])}')
+    for ver in ('b1', 'b2'):
+        rops.append(f'c18.retain magic {ver} {bundle(ver, b"https://example.com/", None, None, [exch(b"https://example.com/", 200, H[:2], b"body")])}')
+    rops.append(f'c18.retain ib f09f968bf09f93a6:31620000:{"&".join(hexs(x) + "=" + hexs(y) for x, y in attrs)}*{hexs(b"sig")}')
+    for d in ('02', '03'):
+        for rs_, n in ((16, 0), (16, 1), (16, 16), (16, 40), (1, 3), (4096, 100), (7, 50)):
+            rops.append(f'c18.retain mice {d} {rs_} {hexs(rbytes(rng, n))}')
+    ctx.both(rops)
     # concurrency under the race detector
     G, R = (64, 20) if thorough else (8, 10)
     e3 = ex('b3', b'https://example.com/', b'GET', [], 200, H[:4], b'sig', b'payload' * 50)
